@@ -140,6 +140,9 @@ def report(prop, tier, t0, results, mc_results, extra_cov=None, extra_viol=None)
     plan = PLAN[prop]
     viols = [v for r in results for v in r["viols"] if prop in v["p"]]
     viols += extra_viol or []
+    drift = [v for r in results for v in r["viols"] if "DRIFT" in v["p"]]
+    for v in drift[:5]:
+        print(f"MODEL-DRIFT op={v['detail'][0]} step={v.get('line')} history={v.get('hist')} trace={os.path.basename(v.get('trace', ''))}: {v['what']}")
     known, new = classify(prop, viols)
     # model-checking findings
     mc_known, mc_new = [], []
@@ -198,6 +201,7 @@ def report(prop, tier, t0, results, mc_results, extra_cov=None, extra_viol=None)
         "rule": plan["rule"],
         "model_checking": [{k: m[k] for k in m if k != "out"} for m in mc_results],
         "trace_monitor_counters": total,
+        "model_drift_steps": len(drift),
         "known_finding_instances": len(known) + len(mc_known),
         "new_violation_instances": len(new) + len(mc_new),
         "exhaustive": False,
@@ -206,6 +210,8 @@ def report(prop, tier, t0, results, mc_results, extra_cov=None, extra_viol=None)
     write_evidence(prop, tier, "model_checking", cov, time.time() - t0, len(new) + len(mc_new), ASSUMPTIONS)
     log(f"[{prop}] {nhist} histories ({nontrivial} non-trivial), {states} TLC states, "
         f"{len(known)} known-finding instances, {len(new)} new violations, {time.time()-t0:.0f}s")
+    if drift and os.environ.get("VERIF_STRICT_DRIFT"):
+        return rc or 2
     return rc
 
 
